@@ -18,6 +18,7 @@ import AcnProofs.Lemmas.SortedPre
 import AcnProofs.Lemmas.SortedSim
 import AcnProofs.Lemmas.SortedSimRun
 import AcnProofs.Lemmas.SortedSimInd
+import AcnProofs.Lemmas.SortedSchedSafe
 
 set_option linter.unusedSectionVars false
 
@@ -357,16 +358,10 @@ theorem schedule_feasible [HasCeilNat K] (feas : List K → Bool) (cfg : Config 
    through preprocessing), `scheduleCall_grants` (`GrantOk` for every queued session, 0 elsewhere, both
    algorithms), `occupant_station`, `active_is_occupant` are proved (`Lemmas/SortedLink.lean`,
    `SortedSimInd.lean`).
-   NOT proved — exactly what is missing for the full statement:
-     (a) `SchedSafe cfg inf (SimSorted.sortedSched …)`: the final assembly of the link lemmas — that
-         the queue of a reachable view has distinct valid station indices (active EVs sit on distinct
-         stations; `resolve` and preprocessing keep that) and the case analysis turning `GrantOk` +
-         `Derived` into `Accepts …` and `0 ≤ pilot ≤ rapEv …` per EVSE class; its `err` half is
-         `sortedSched_no_invalidRate`;
-     (b) "every applied column passes the feasibility predicate" at run level (per period it is
-         `sim_period_composition`; a period without scheduler call applies zeros);
-     (c) the rampdown estimator (stateful across calls; `Sim`'s scheduler parameter is a pure
-         function of the view, so the adapter covers `estimate_max_rate = False`).
+   The FULL run-level statement is `sim_consequences` (below): `SchedSafe` is proved for the modelled
+   sorted algorithms (`Lemmas/SortedSchedSafe.lean`) and "column is feasible or zero" is part of the
+   loop-head invariant.  NOT covered: the rampdown estimator (stateful across calls; `Sim`'s scheduler
+   parameter is a pure function of the view, so the adapter covers `estimate_max_rate = False`).
    The composition is nevertheless TIED TO THE CODE: the C07/C08 checks run every generated whole
    simulation without estimator through `Sim.run` with `SimSorted.sortedSched` and compare pilots,
    rates, energies, iteration and error class with the real Simulator + real algorithm. -/
@@ -521,15 +516,18 @@ theorem sim_period_composition [HasCeilNat K] [HasExp K] (net : SimSorted.NetInf
     every loop head of `Simulator.run` — the run has raised no `InvalidRate`, and if it has not
     aborted every EV record has `delivered ≤ requested` and the battery invariant.  (Both
     scheduling branches of the loop are covered: a period without scheduler call applies zeros.) -/
-theorem sim_consequences_of_schedSafe (cfg : Sim.Cfg ℝ) (inf : ℝ) (hc : CfgOk cfg inf)
-    (sched : Sim.View ℝ → Except EventCore.Err (Sim.Schedule ℝ)) (hs : SchedSafe cfg inf sched)
+theorem sim_consequences_of_schedSafe (feasP : List ℝ → Bool) (cfg : Sim.Cfg ℝ) (inf : ℝ)
+    (hc : CfgOk cfg inf)
+    (sched : Sim.View ℝ → Except EventCore.Err (Sim.Schedule ℝ)) (hs : SchedSafe feasP cfg inf sched)
     (hb : ∀ e ∈ cfg.evs, BattAlg.Inv e.batt ∧ e.delivered ≤ e.requested) (n : Nat) :
     (Sim.run cfg sched n (Sim.init cfg)).2 ≠ some .invalidRate ∧
     ((Sim.run cfg sched n (Sim.init cfg)).2 = none →
-      ∀ e ∈ (Sim.run cfg sched n (Sim.init cfg)).1.evs,
-        e.delivered ≤ e.requested ∧ BattAlg.Inv e.batt) := by
-  obtain ⟨h1, h2⟩ := run_safe cfg inf hc sched hs n (Sim.init cfg) (init_sinv cfg hb)
-  exact ⟨h1, fun h e he => ⟨((h2 h).evs e he).1.2, ((h2 h).evs e he).1.1⟩⟩
+      (∀ e ∈ (Sim.run cfg sched n (Sim.init cfg)).1.evs,
+        e.delivered ≤ e.requested ∧ BattAlg.Inv e.batt) ∧
+      (∀ τ, τ < (Sim.run cfg sched n (Sim.init cfg)).1.core.iter →
+        ColOk feasP (Sim.run cfg sched n (Sim.init cfg)).1.pilots cfg.stations.length τ)) := by
+  obtain ⟨h1, h2⟩ := run_safe feasP cfg inf hc sched hs n (Sim.init cfg) (init_sinv feasP cfg hb)
+  exact ⟨h1, fun h => ⟨fun e he => ⟨((h2 h).evs e he).1.2, ((h2 h).evs e he).1.1⟩, (h2 h).cols⟩⟩
 
 /-- the scheduler side of `SchedSafe` that IS proved for the modelled sorted algorithms: they never
     raise `InvalidRate` themselves (`KeyError` / `ValueError` only) -/
@@ -547,8 +545,9 @@ theorem sortedSched_no_invalidRate [HasCeilNat ℝ] (net : SimSorted.NetInfo ℝ
 /-- `SchedSafe` is satisfiable: the scheduler that answers with the all-zero array (what
     `zero_for_inactive_*` gives every vacant station) has the per-call guarantees, so the run-level
     theorem applies to it -/
-theorem zero_sched_safe (cfg : Sim.Cfg ℝ) (inf : ℝ) (hc : CfgOk cfg inf) :
-    SchedSafe cfg inf (fun _ => .ok (formatArraySchedule (SimSorted.infraOf inf cfg)
+theorem zero_sched_safe (feasP : List ℝ → Bool) (cfg : Sim.Cfg ℝ) (inf : ℝ) (hc : CfgOk cfg inf)
+    (hz : feasP (List.replicate cfg.stations.length 0) = true) :
+    SchedSafe feasP cfg inf (fun _ => .ok (formatArraySchedule (SimSorted.infraOf inf cfg)
       (List.replicate cfg.stations.length 0))) := by
   constructor
   · intro v e h
@@ -556,7 +555,7 @@ theorem zero_sched_safe (cfg : Sim.Cfg ℝ) (inf : ℝ) (hc : CfgOk cfg inf) :
   intro a _ hev sch hsch
   simp only [Except.ok.injEq] at hsch
   subst hsch
-  refine ⟨List.replicate cfg.stations.length 0, rfl, by simp, ?_, ?_⟩
+  refine ⟨List.replicate cfg.stations.length 0, rfl, by simp, hz, ?_, ?_⟩
   · intro k st hk
     have hk' : k < cfg.stations.length := (List.getElem?_eq_some_iff.mp hk).1
     have : (List.replicate cfg.stations.length (0 : ℝ)).getD k 0 = 0 := by
@@ -576,6 +575,31 @@ theorem zero_sched_safe (cfg : Sim.Cfg ℝ) (inf : ℝ) (hc : CfgOk cfg inf) :
       · cases he
     exact ⟨le_refl _, rapEv_nonneg cfg st e (hc.volt st (List.mem_of_getElem? hk)) hc.per
       (hev e hmem).1.2⟩
+
+/-- `sim_consequences` — UNCONDITIONAL for the modelled sorted algorithms without estimator
+    (greedy and round robin, every sort order, uninterrupted on/off, any increment, any `eps ≥ 0`,
+    any constraint matrix incl. mixed signs / limits / phasors / tolerances): in the shared simulator
+    model with `SimSorted.sortedSched` as scheduler, on every well-formed configuration (`CfgOk`:
+    distinct station ids, continuous-from-zero or finite-rate EVSEs, positive voltages and period,
+    distinct session ids; batteries start with their invariant and `delivered ≤ requested`) and for
+    EVERY fuel `n` — i.e. at every loop head of `Simulator.run`:
+      * the run has raised no `InvalidRate`,
+      * if it has not aborted, every EV record has `delivered ≤ requested` and the battery invariant,
+      * and every column of the pilot matrix applied so far passes the network's feasibility
+        predicate or is all zero (a period without scheduler call applies zeros). -/
+theorem sim_consequences [HasCeilNat ℝ] (net : SimSorted.NetInfo ℝ) (inf : ℝ) (cfg : Sim.Cfg ℝ)
+    (scfg : Config ℝ) (hc : CfgOk cfg inf) (heps : 0 ≤ scfg.eps)
+    (hb : ∀ e ∈ cfg.evs, BattAlg.Inv e.batt ∧ e.delivered ≤ e.requested) (n : Nat) :
+    (Sim.run cfg (SimSorted.sortedSched net inf cfg scfg) n (Sim.init cfg)).2 ≠ some .invalidRate ∧
+    ((Sim.run cfg (SimSorted.sortedSched net inf cfg scfg) n (Sim.init cfg)).2 = none →
+      (∀ e ∈ (Sim.run cfg (SimSorted.sortedSched net inf cfg scfg) n (Sim.init cfg)).1.evs,
+        e.delivered ≤ e.requested ∧ BattAlg.Inv e.batt) ∧
+      (∀ τ, τ < (Sim.run cfg (SimSorted.sortedSched net inf cfg scfg) n (Sim.init cfg)).1.core.iter →
+        ColOk (SimSorted.feasOf net)
+          (Sim.run cfg (SimSorted.sortedSched net inf cfg scfg) n (Sim.init cfg)).1.pilots
+          cfg.stations.length τ)) :=
+  sim_consequences_of_schedSafe (SimSorted.feasOf net) cfg inf hc _
+    (sortedSched_schedSafe net inf cfg scfg hc heps) hb n
 
 /-! ### non-vacuity: concrete instances over ℚ on which the hypotheses hold and the algorithms run -/
 
